@@ -176,7 +176,7 @@ int run_lin(const Args& a) {
             }
         }
         main_ses.leave();
-        ctl::Profile prof = make_profile(r, delays ? static_cast<int>(r.below(6)) : 0);
+        ctl::Profile prof = make_profile(r, delays ? static_cast<int>(r.below(7)) : 0);
         ctl::g_profile.store(delays ? &prof : nullptr);
         // ---- run
         std::vector<std::vector<Ev>> tev(T + nchurn);
